@@ -209,7 +209,8 @@ def to_cobra(net, solver="glpk", name="net"):
             rx.objective_coefficient = c
     else:
         m.objective = obj
-    m.objective_direction = net["dir"]
+    if style not in (1, 3, 6, 8):
+        m.objective_direction = net["dir"]
     if style in (6, 7, 9) and net["mets"]:
         # a temporary reaction that was part of the objective (negative weight) and is removed again, outside any block
         tmp = Reaction("ZZ_tmp")
